@@ -48,6 +48,35 @@ def cases(draw, tier):
           'calib_seeds': [draw(st.integers(0, 99))], 'input_seed': 0}
 
 
+@st.composite
+def big_cases(draw):
+  """One operator with a constant of 1..4 million elements (an embedding table, a
+  wide FULLY_CONNECTED): sizes beyond anything the repository's models have,
+  where chunked / blocked processing of large tensors would show."""
+  width = draw(st.sampled_from([24, 32, 48, 64, 96, 128, 200]))
+  rows = draw(st.integers((2 ** 20) // width + 1, (2 ** 22) // width))
+  data = {'seed': draw(st.integers(0, 2 ** 16)), 'style': draw(st.sampled_from(['normal', 'outlier', 'positive'])),
+          'mag': 1.0}
+  if draw(st.booleans()):
+    tensors = [{'name': 'ids', 'shape': [3], 'dtype': 'i32', 'kind': 'in', 'dom': [0, rows], 'mag': 1.0, 'rng': None},
+               {'name': 'emb/table', 'shape': [rows, width], 'dtype': 'f32', 'kind': 'const', 'data': data},
+               {'name': 'emb/lookup;', 'shape': [3, width], 'dtype': 'f32', 'kind': 'act', 'rng': None}]
+    node = {'op': 'EMBEDDING_LOOKUP', 'in': [0, 1], 'out': [2], 'opts': {}}
+  else:
+    tensors = [{'name': 'x', 'shape': [1, width], 'dtype': 'f32', 'kind': 'in', 'dom': None, 'mag': 1.0, 'rng': None},
+               {'name': 'dense/kernel', 'shape': [rows, width], 'dtype': 'f32', 'kind': 'const',
+                'data': dict(data, mag=round(1.0 / width ** 0.5, 4))},
+               {'name': 'dense/MatMul;', 'shape': [1, rows], 'dtype': 'f32', 'kind': 'act', 'rng': None}]
+    node = {'op': 'FULLY_CONNECTED', 'in': [0, 1, -1], 'out': [2],
+            'opts': {'fusedActivationFunction': 0, 'weightsFormat': 0, 'keepNumDims': False,
+                     'asymmetricQuantizeInputs': False}}
+  mspec = {'subgraphs': [{'name': 'main', 'sig': 'serving_default', 'argprefix': 'a', 'tensors': tensors,
+                          'nodes': [node], 'order': [0], 'inputs': [0], 'outputs': [2]}], 'dedup': False}
+  algo, c = draw(st.sampled_from(R.FLOAT_COMPUTE_CFGS + [(R.MINMAX, R.A8W8), (R.MINMAX, R.A8W8_T)]))
+  return {'model': mspec, 'recipe': {'kind': 'rules', 'rules': [R.rule('.*', '*', algo, dict(c))]},
+          'calib_seeds': [0], 'input_seed': 0, 'big': True}
+
+
 def check_case(case):
   out = engine.run(case)
   labels = []
@@ -152,4 +181,6 @@ def phases(tier):
   return [
       {'name': 'constants', 'kind': 'hyp', 'strategy': lambda: cases(tier),
        'run': check_case, 'examples': int((240000 if big else 4000) * k)},
+      {'name': 'big_constants', 'kind': 'hyp', 'strategy': big_cases,
+       'run': check_case, 'examples': int((640 if big else 64) * k)},
   ]
